@@ -128,7 +128,7 @@ def run_harness(binpath, programs, work, tag):
     if os.path.exists(ofile):
         os.remove(ofile)
     r = subprocess.run(["timeout", "900", binpath, pfile, ofile], capture_output=True, text=True)
-    outs = [json.loads(l) for l in open(ofile)] if os.path.exists(ofile) else []
+    outs = vlib.read_ndjson(ofile)
     res, k = [], 0
     for bind, acts in programs:
         k += 1      # Reset line
